@@ -118,6 +118,176 @@ pub open spec fn pow128(n: nat) -> nat decreases n { if n == 0 { 1 } else { 128 
             }
 //@end
 
+// =====================================================================================================
+// bounds-checked primitive readers (C03: "never panics", truncated input is an error, a second occurrence of a
+// non-repeatable property is an error, the value is the big-endian integer the specification defines in 1.5.2/1.5.3)
+// =====================================================================================================
+pub open spec fn be16(b: Seq<u8>) -> int { b[0] as int * 256 + b[1] as int }
+pub open spec fn be32(b: Seq<u8>) -> int { ((b[0] as int * 256 + b[1] as int) * 256 + b[2] as int) * 256 + b[3] as int }
+
+// R6 shims for `uN::from_be_bytes(SLICE.try_into().unwrap())` (Verus cannot match the anonymous array-length constant of
+// from_be_bytes in an assume_specification). The precondition IS the panic condition of `<[u8; N]>::try_from(slice).unwrap()`.
+#[verifier::external_body]
+pub fn verif_be16(b: &[u8]) -> (r: u16)
+    requires b@.len() == 2,
+    ensures r as int == be16(b@),
+{ u16::from_be_bytes(b.try_into().unwrap()) }
+#[verifier::external_body]
+pub fn verif_be32(b: &[u8]) -> (r: u32)
+    requires b@.len() == 4,
+    ensures r as int == be32(b@),
+{ u32::from_be_bytes(b.try_into().unwrap()) }
+
+// std docs: `impl<T: Clone> From<&[T]> for Vec<T>` "allocates a Vec<T> and fills it by cloning the slice's items" (used on u8 only:
+// Clone of u8 is a copy)
+pub assume_specification<'a, T: Clone> [<Vec<T> as From<&'a [T]>>::from] (s: &[T]) -> (r: Vec<T>)
+    ensures r@.len() == s@.len(), (forall|i: int| 0 <= i < s@.len() ==> vstd::pervasive::cloned(s@[i], #[trigger] r@[i]));
+
+// the common shape: n bytes consumed, the rest handed back
+pub open spec fn took(bytes: &[u8], r: GneissResult<&[u8]>, n: int) -> bool {
+    r matches Ok(rest) && n <= bytes@.len() && rest@ == bytes@.subrange(n, bytes@.len() as int)
+}
+
+//@fn gneiss-mqtt/src/decode.rs decode_u16 props=C03,C11
+//@@rewrite "u16::from_be_bytes(bytes[..2].try_into().unwrap())" => "verif_be16(&bytes[..2])"
+    ensures
+        bytes@.len() < 2 ==> r is Err && *final(value) == *old(value),
+        bytes@.len() >= 2 ==> took(bytes, r, 2) && *final(value) as int == be16(bytes@),
+//@end
+
+//@fn gneiss-mqtt/src/decode.rs decode_optional_u16 props=C03,C11
+//@@rewrite "u16::from_be_bytes(bytes[..2].try_into().unwrap())" => "verif_be16(&bytes[..2])"
+    ensures
+        (bytes@.len() < 2 || *old(value) is Some) ==> r is Err && *final(value) == *old(value),
+        (bytes@.len() >= 2 && *old(value) is None) ==> took(bytes, r, 2) && (*final(value) matches Some(v) && v as int == be16(bytes@)),
+//@end
+
+//@fn gneiss-mqtt/src/decode.rs decode_optional_u32 props=C03,C11
+//@@rewrite "u32::from_be_bytes(bytes[..4].try_into().unwrap())" => "verif_be32(&bytes[..4])"
+    ensures
+        (bytes@.len() < 4 || *old(value) is Some) ==> r is Err && *final(value) == *old(value),
+        (bytes@.len() >= 4 && *old(value) is None) ==> took(bytes, r, 4) && (*final(value) matches Some(v) && v as int == be32(bytes@)),
+//@end
+
+//@fn gneiss-mqtt/src/decode.rs decode_optional_u8_as_bool props=C03,C11
+    ensures
+        (bytes@.len() < 1 || *old(value) is Some || bytes@[0] > 1) ==> r is Err,
+        (bytes@.len() >= 1 && *old(value) is None && bytes@[0] <= 1) ==> took(bytes, r, 1) && *final(value) == Some(bytes@[0] == 1),
+        r is Err ==> *final(value) == *old(value),
+//@end
+
+//@fn gneiss-mqtt/src/decode.rs decode_optional_length_prefixed_bytes props=C03,C11
+//@@rewrite "u16::from_be_bytes(bytes[..2].try_into().unwrap())" => "verif_be16(&bytes[..2])"
+    ensures
+        (bytes@.len() < 2 || *old(value) is Some || bytes@.len() < 2 + be16(bytes@)) ==> r is Err && *final(value) == *old(value),
+        (bytes@.len() >= 2 && *old(value) is None && bytes@.len() >= 2 + be16(bytes@)) ==> took(bytes, r, 2 + be16(bytes@))
+            && (*final(value) matches Some(v) && v@ == bytes@.subrange(2, 2 + be16(bytes@))),
+//@@at after "*value = Some(Vec::from(&mutable_bytes[..value_length]));"
+    proof {
+        assert(mutable_bytes@ == bytes@.subrange(2, bytes@.len() as int));
+        assert(value->Some_0@ =~= mutable_bytes@.subrange(0, value_length as int));
+        assert(mutable_bytes@.subrange(0, value_length as int) =~= bytes@.subrange(2, 2 + be16(bytes@)));
+        assert(mutable_bytes@.subrange(value_length as int, mutable_bytes@.len() as int) =~= bytes@.subrange(2 + be16(bytes@), bytes@.len() as int));
+    }
+//@end
+
+// UTF-8 (R6 shim for `std::str::from_utf8(SLICE)?`): validity and the decoded text are uninterpreted functions of the bytes; the `?`
+// conversion `From<Utf8Error> for GneissError` (error.rs: new_decoding_failure) is folded into the shim's error value.
+pub uninterp spec fn utf8_valid(b: Seq<u8>) -> bool;
+pub uninterp spec fn utf8_text(b: Seq<u8>) -> Seq<char>;
+#[verifier::external_body]
+pub fn verif_from_utf8<'a>(b: &'a [u8]) -> (r: Result<&'a str, GneissError>)
+    ensures r matches Ok(s) ==> utf8_valid(b@) && s@ == utf8_text(b@),
+        r matches Err(e) ==> !utf8_valid(b@) && e.kind() == GErrKind::DecodingFailure,
+{ unimplemented!() }
+
+// a two-byte length, then that many bytes of valid UTF-8
+pub open spec fn lp_string_ok(bytes: Seq<u8>) -> bool {
+    bytes.len() >= 2 && bytes.len() >= 2 + be16(bytes) && utf8_valid(bytes.subrange(2, 2 + be16(bytes)))
+}
+pub open spec fn lp_string_text(bytes: Seq<u8>) -> Seq<char> { utf8_text(bytes.subrange(2, 2 + be16(bytes))) }
+
+//@fn gneiss-mqtt/src/decode.rs decode_length_prefixed_string props=C03,C11
+//@@rewrite "u16::from_be_bytes(bytes[..2].try_into().unwrap())" => "verif_be16(&bytes[..2])"
+//@@rewrite "std::str::from_utf8(&mutable_bytes[..value_length])?" => "verif_from_utf8(&mutable_bytes[..value_length])?"
+    ensures
+        !lp_string_ok(bytes@) ==> r is Err && *final(value) == *old(value),
+        lp_string_ok(bytes@) ==> took(bytes, r, 2 + be16(bytes@)) && final(value)@ == lp_string_text(bytes@),
+//@@at before "let decode_utf8_result = verif_from_utf8(&mutable_bytes[..value_length])?;"
+    proof {
+        assert(mutable_bytes@.subrange(0, value_length as int) =~= bytes@.subrange(2, 2 + be16(bytes@)));
+        assert(mutable_bytes@.subrange(value_length as int, mutable_bytes@.len() as int) =~= bytes@.subrange(2 + be16(bytes@), bytes@.len() as int));
+    }
+//@end
+
+//@fn gneiss-mqtt/src/decode.rs decode_optional_length_prefixed_string props=C03,C11
+//@@rewrite "u16::from_be_bytes(bytes[..2].try_into().unwrap())" => "verif_be16(&bytes[..2])"
+//@@rewrite "std::str::from_utf8(&mutable_bytes[..value_length])?" => "verif_from_utf8(&mutable_bytes[..value_length])?"
+    ensures
+        (!lp_string_ok(bytes@) || *old(value) is Some) ==> r is Err && *final(value) == *old(value),
+        (lp_string_ok(bytes@) && *old(value) is None) ==> took(bytes, r, 2 + be16(bytes@)) && (*final(value) matches Some(v) && v@ == lp_string_text(bytes@)),
+//@@at before "let decode_utf8_result = verif_from_utf8(&mutable_bytes[..value_length])?;"
+    proof {
+        assert(mutable_bytes@.subrange(0, value_length as int) =~= bytes@.subrange(2, 2 + be16(bytes@)));
+        assert(mutable_bytes@.subrange(value_length as int, mutable_bytes@.len() as int) =~= bytes@.subrange(2 + be16(bytes@), bytes@.len() as int));
+    }
+//@end
+
+//@fn gneiss-mqtt/src/decode.rs decode_u8_as_enum props=C03,C11 desugar
+    requires forall|b: u8| call_requires(converter, (b,)),
+    ensures
+        bytes@.len() == 0 ==> r is Err,
+        r is Ok ==> took(bytes, r, 1) && call_ensures(converter, (bytes@[0],), Ok(*final(value))),
+        // the byte is judged by the table alone
+        (bytes@.len() >= 1 && r is Err) ==> exists|e: GneissError| call_ensures(converter, (bytes@[0],), Err(e)),
+//@end
+
+//@fn gneiss-mqtt/src/decode.rs decode_optional_u8_as_enum props=C03,C11 desugar
+    requires forall|b: u8| call_requires(converter, (b,)),
+    ensures
+        (bytes@.len() == 0 || *old(value) is Some) ==> r is Err,
+        r is Ok ==> took(bytes, r, 1) && *old(value) is None && (*final(value) matches Some(v) && call_ensures(converter, (bytes@[0],), Ok(v))),
+        (bytes@.len() >= 1 && *old(value) is None && r is Err) ==> exists|e: GneissError| call_ensures(converter, (bytes@[0],), Err(e)),
+//@end
+
+// a user property is two length-prefixed strings; properties accumulate in wire order
+//@fn gneiss-mqtt/src/decode.rs decode_user_property props=C03,C11
+    ensures
+        ({
+            let n1 = 2 + be16(bytes@);
+            let rest1 = bytes@.subrange(n1, bytes@.len() as int);
+            let ok = lp_string_ok(bytes@) && lp_string_ok(rest1);
+            &&& !ok ==> r is Err && *final(properties) == *old(properties)
+            &&& ok ==> {
+                let prev = match *old(properties) { Some(v) => v@, None => Seq::<UserProperty>::empty() };
+                &&& took(bytes, r, n1 + 2 + be16(rest1))
+                &&& *final(properties) matches Some(v)
+                &&& v@.len() == prev.len() + 1 && v@.subrange(0, prev.len() as int) == prev
+                &&& v@[prev.len() as int].name@ == lp_string_text(bytes@) && v@[prev.len() as int].value@ == lp_string_text(rest1)
+            }
+        }),
+//@@at before "Ok(mutable_bytes)"
+    proof {
+        let n1 = 2 + be16(bytes@);
+        let rest1 = bytes@.subrange(n1, bytes@.len() as int);
+        let prev = match *old(properties) { Some(v) => v@, None => Seq::<UserProperty>::empty() };
+        assert(mutable_bytes@ =~= bytes@.subrange(n1 + 2 + be16(rest1), bytes@.len() as int));
+        assert(properties->Some_0@ =~= prev.push(property));
+        assert(properties->Some_0@.subrange(0, prev.len() as int) =~= prev);
+    }
+//@end
+
+//@fn gneiss-mqtt/src/decode.rs decode_vli_into_mutable props=C03,C11
+    ensures
+        match r {
+            Ok(rest) => exists|n: int| 1 <= n <= 4 && n <= buffer@.len() && buffer@[n - 1] < 128
+                && (forall|j: int| 0 <= j < n - 1 ==> buffer@[j] >= 128) && rest@ == buffer@.subrange(n, buffer@.len() as int)
+                && *final(value) == vli_val(buffer@, n as nat),
+            // here (inside a packet body whose length is known) running out of bytes is an error, not "wait"
+            Err(_) => *final(value) == *old(value) && forall|j: int| 0 <= j < 4 && j < buffer@.len() ==> buffer@[j] >= 128,
+        },
+//@end
+
 pub proof fn lemma_pow128(n: nat)
     ensures n == 0 ==> pow128(n) == 1, n == 1 ==> pow128(n) == 128, n == 2 ==> pow128(n) == 16384, n == 3 ==> pow128(n) == 2097152, n == 4 ==> pow128(n) == 268435456,
 {
